@@ -6,12 +6,17 @@ A *case* (JSON-serialisable, this is also the replay format):
    "sig":   [[kind, name, default-or-None]...]      kind p=positional-or-keyword k=keyword-only s=*args w=**kwargs
    "tmpl":  {"auto": [excluded names]} | {"items": [["L", text] | ["F", field]]...},
    "ctx":   None | {"rewrite": bool, "vals": [[name, value]...]},
-   "via":   "direct" | "default" | "decorator",
+   "via":   "direct" | "default" | "decorator" | "noself"    (noself: through cashews.key.noself(cache)(ttl=..), no key=)
+   "recv":  absent | "obj"       (obj: a str bound to the first parameter is passed as an object whose __str__ is that text)
+   "flight": absent | "cache" | "early" | "soft"   (also run pairs of overlapping calls through that decorator)
+   "reuse": absent | true        (noself only: the decorator object noself(cache)(ttl=..) is first applied to a sibling function
+                                  with the same signature, which is also called with the same arguments before every call)
    "prefix": str (decorator only),
    "groups": [{"calls": [{"args": [value...], "kwargs": [[name, value]...]}...]}...]}
 
 values are strings in the driver's prefix token syntax (see lean/Drivers/C08.lean):
-  s:<hex utf-8> | i:<int> | b:0 | b:1 | n | y:<hex> | t:<n> v*n | d:<n> (k:<hex key> v)*n
+  s:<hex utf-8> | i:<int> | b:0 | b:1 | n | y:<hex> | t:<n> v*n | d:<n> (k:<hex key> v)*n | e:<n> v*n
+  (e: a set; the elements in the order they are inserted - for the harness's small sets also the iteration order)
 Calls of one group are forms of the same call (same bound arguments); different groups have different ones.
 """
 from __future__ import annotations
@@ -31,9 +36,25 @@ def hx(s: str) -> str:
     return s.encode("utf-8").hex()
 
 
+class Recv:
+    """a receiver (`self` / `cls`) that is a part of the key the way the README recommends: `__str__` gives its text.
+    It is rendered by `str(value)` (no entry in the formatter's type table), the model sees the text as a str."""
+
+    def __init__(self, text: str):
+        self.text = text
+
+    def __str__(self):
+        return self.text
+
+    def __repr__(self):
+        return f"Recv({self.text!a})"
+
+
 def enc_tokens(v) -> list[str]:
     if v is None:
         return ["n"]
+    if isinstance(v, Recv):
+        return ["s:" + hx(v.text)]
     if isinstance(v, bool):
         return ["b:1" if v else "b:0"]
     if isinstance(v, int):
@@ -44,6 +65,11 @@ def enc_tokens(v) -> list[str]:
         return ["y:" + v.hex()]
     if isinstance(v, tuple):
         out = [f"t:{len(v)}"]
+        for x in v:
+            out += enc_tokens(x)
+        return out
+    if isinstance(v, set):
+        out = [f"e:{len(v)}"]
         for x in v:
             out += enc_tokens(x)
         return out
@@ -82,6 +108,13 @@ def _dec(toks: list[str], i: int):
             v, i = _dec(toks, i)
             out.append(v)
         return tuple(out), i
+    if kind == "e":
+        out = set()
+        i += 1
+        for _ in range(int(rest)):
+            v, i = _dec(toks, i)
+            out.add(v)
+        return out, i
     if kind == "d":
         out = {}
         i += 1
@@ -108,6 +141,8 @@ def canon(v) -> str:
         return "t(" + ",".join(canon(x) for x in v) + ")"
     if isinstance(v, dict):
         return "d(" + ",".join(hx(k) + "=" + canon(x) for k, x in sorted(v.items())) + ")"
+    if isinstance(v, set):
+        return "e(" + ",".join(sorted(canon(x) for x in v)) + ")"
     return enc(v)
 
 
@@ -117,6 +152,8 @@ def deep_type(v) -> str:
         return "tuple[" + ",".join(deep_type(x) for x in v) + "]"
     if isinstance(v, dict):
         return "dict[" + ",".join(hx(k) + ":" + deep_type(x) for k, x in sorted(v.items())) + "]"
+    if isinstance(v, set):
+        return "set[" + ",".join(sorted(deep_type(x) for x in v)) + "]"
     return type(v).__name__
 
 
@@ -130,7 +167,31 @@ BYTES = [b"x", b"ff", b"\xff", b"\xc3\xa9", b"\xc3", b"1", b"\xed\xa0\x80", b"c3
 TUPLES = [(), (1,), ("1",), (1, "a"), (None,), ((1, 2), 3), (b"\xff", True), ("x",), (2,), ("a", "bc"), ("ab", "c"), (1, 23), (12, 3)]
 DICTS = [{}, {"k": 1}, {"b": 1, "a": None}, {"a": (1, 2)}, {"k": 2}, {"z": "q", "y": b"\xff", "x": {"n": None}}, {"b": 2, "a": None}]
 MALFORMED = ["", ":", "a:b", b"", b":", b"a:b", "x:", ":x"]
-POOLS = {"str": STRS, "int": INTS, "bool": BOOLS, "none": [None], "bytes": BYTES, "tuple": TUPLES, "dict": DICTS}
+
+
+def mkset(*items):
+    """a set with this insertion order (1 and 9, 2 and 10, ... share a slot of the small table: their iteration order is
+    the insertion order, so equal sets that iterate differently can be built on purpose)"""
+    out = set()
+    for x in items:
+        out.add(x)
+    return out
+
+
+def stable_set(v: set):
+    """an equal set whose iteration order is reproduced by inserting its elements in that order (what `dec(enc(v))`
+    does), so that the tokens of a case say in which order the implementation will see the elements; None if there is none"""
+    for _ in range(8):
+        w = mkset(*list(v))
+        if list(w) == list(v):
+            return w
+        v = w
+    return None
+
+
+SETS = [x for x in map(stable_set, [mkset(), mkset(1), mkset(9), mkset(1, 9), mkset(9, 1), mkset("b", "a"), mkset("a", "b"), mkset(2, 10, 18), mkset(18, 10, 2), mkset(10, 18, 2),
+        mkset("x"), mkset("y"), mkset(None, "x"), mkset((1, 2), 3), mkset(b"\xff", "ff"), mkset("\u00e9", "e\u0301"), mkset(17, 1, 9), mkset(9, 17, 1)]) if x is not None]
+POOLS = {"str": STRS, "int": INTS, "bool": BOOLS, "none": [None], "bytes": BYTES, "tuple": TUPLES, "dict": DICTS, "set": SETS}
 TYPES = list(POOLS)
 EXTRA_KW_NAMES = ["x", "y", "zz"]
 
@@ -217,7 +278,7 @@ def text_variants(v):
 def pool_type(v) -> str:
     if v is None:
         return "none"
-    return {bool: "bool", int: "int", str: "str", bytes: "bytes", tuple: "tuple", dict: "dict"}[type(v)]
+    return {bool: "bool", int: "int", str: "str", bytes: "bytes", tuple: "tuple", dict: "dict", set: "set"}[type(v)]
 
 
 def other_value_same_type(rng, v):
@@ -253,14 +314,28 @@ def all_shapes(maxn=4):
     return out
 
 
-def make_sig(rng, shape, first_self=False, alt_names=False):
+# parameter names: every non-empty proper substring of "self" and of "cls" (a membership test on a *string* of receiver
+# names instead of a tuple is a substring test), names that extend a receiver's name, one-letter names, names that are
+# prefixes / suffixes of each other, upper case, digits, underscores.  Not in the pool: the names the harness uses for
+# extra keywords and context values (x, y, zz, site).  `template` is the name of the first parameter of
+# cashews.formatter.default_format, which receives the call's values as keywords.
+RECEIVERS = ["self", "cls"]
+RECEIVER_PIECES = ["s", "e", "l", "f", "se", "el", "lf", "sel", "elf", "c", "cl", "ls"]
+NAME_POOL = RECEIVER_PIECES + ["self_", "_self", "selfish", "myself", "cls_", "a", "ab", "abc", "b", "a_b", "k", "key", "ke", "arg", "kwarg",
+                               "_a", "A", "n1", "n", "id", "i", "d", "template", "values", "format_string"]
+
+
+assert len(set(NAME_POOL)) == len(NAME_POOL)
+
+
+def make_sig(rng, shape, first_self=False, alt_names=False, pool_names=False):
     npos, ndef, vp, nkw, mask, vk = shape
-    letters = iter(["a", "b", "c", "d"])
+    letters = iter(rng.sample(NAME_POOL, 4) if pool_names else ["a", "b", "c", "d"])
     sig = []
     for i in range(npos):
         name = next(letters)
         if i == 0 and first_self:
-            name = "self"
+            name = first_self if isinstance(first_self, str) else "self"
         d = enc(gen_value(rng)) if i >= npos - ndef else NODEF
         sig.append(["p", name, d])
     if vp:
@@ -307,12 +382,15 @@ def build_func(case):
     ns["__name__"] = names["module"]
     ns["_canon"] = canon
     got = ", ".join(f"{name!r}: {name}" for _, name, _ in case["sig"])
-    src = f"async def {names['name']}({params}):\n    _CALLS.append(1)\n    return _canon({{{got}}})\n"
+    src = (f"async def {names['name']}({params}):\n    _CALLS.append(1)\n    if _HOOK:\n        await _HOOK[0]()\n"
+           f"    return _canon({{{got}}})\n")
     ns["_CALLS"] = []
+    ns["_HOOK"] = []
     exec(src, ns)
     f = ns[names["name"]]
     f.__qualname__ = names["qualname"]
     f._calls = ns["_CALLS"]
+    f._hook = ns["_HOOK"]      # flight stage: a coroutine function awaited inside the body (parks the call)
     _FUNCS[key] = f
     if len(_FUNCS) > 4000:
         _FUNCS.clear()
@@ -384,9 +462,11 @@ def call_forms(rng, sig, bound, limit=12):
             return {k: flip(x) for k, x in reversed(list(v.items()))}
         if isinstance(v, tuple):
             return tuple(flip(x) for x in v)
+        if isinstance(v, set):
+            return stable_set(mkset(*reversed(list(v)))) or v
         return v
 
-    # a dict argument written with another insertion order is the same (==) argument
+    # a dict argument written with another insertion order is the same (==) argument, and so is a set built in another order
     for a, kw in list(forms):
         fa, fkw = [flip(x) for x in a], [(n, flip(x)) for n, x in kw]
         if [enc(x) for x in fa] != [enc(x) for x in a] or [enc(x) for _, x in fkw] != [enc(x) for _, x in kw]:
@@ -548,6 +628,21 @@ def case_lines(case) -> list[str]:
 # ----------------------------------------------------------------------------------------------
 # the implementation
 
+def call_values(case, c):
+    """the Python arguments of one call of a case; with `recv: obj` a str given for the first parameter becomes an
+    object that renders as that text"""
+    args = [dec(x) for x in c["args"]]
+    kwargs = {n: dec(v) for n, v in c["kwargs"]}
+    sig = case["sig"]
+    if case.get("recv") == "obj" and sig and sig[0][0] == "p":
+        if args:
+            if isinstance(args[0], str):
+                args[0] = Recv(args[0])
+        elif isinstance(kwargs.get(sig[0][1]), str):
+            kwargs[sig[0][1]] = Recv(kwargs[sig[0][1]])
+    return tuple(args), kwargs
+
+
 def enc_bound(ba: inspect.BoundArguments | None) -> str:
     if ba is None:
         return "E"
@@ -611,8 +706,7 @@ def run_direct(case) -> dict:
     with _Ctx(case.get("ctx")):
         for g in case["groups"]:
             for c in g["calls"]:
-                args = tuple(dec(x) for x in c["args"])
-                kwargs = {n: dec(v) for n, v in c["kwargs"]}
+                args, kwargs = call_values(case, c)
                 try:
                     key = get_cache_key(func, pass_tmpl, args, kwargs)
                     if not isinstance(key, str):
@@ -628,6 +722,137 @@ def run_direct(case) -> dict:
                     "d": py_bind(psig, args, kwargs, False, True),
                     "q": py_bind(psig, args, kwargs, True, True),
                 })
+    return out
+
+
+def decorate(cache, case, func, kind="cache"):
+    """(decorated function, the key template the decorator works with).  via decorator: `cache(ttl=.., key=.., prefix=..)`;
+    via noself: `cashews.key.noself(cache)(ttl=..)`, which derives the template itself and hands it to the decorator
+    factory as `key=` - that argument is what is reported.  kind: cache | early | soft"""
+    from cashews.key import get_cache_key_template, noself
+
+    t = case["tmpl"]
+    kw = {}
+    if "items" in t:
+        kw["key"] = template_string(t["items"])
+    if case.get("prefix"):
+        kw["prefix"] = case["prefix"]
+    fabric = {"cache": cache, "early": cache.early, "soft": cache.soft}[kind]
+    extra = {"early": {"early_ttl": 32}, "soft": {"soft_ttl": 32}}.get(kind, {})
+    if case["via"] == "noself":
+        seen = {}
+
+        def spy(*a, **k):
+            seen["key"] = k.get("key")
+            return fabric(*a, **k)
+
+        decorator = noself(spy)(ttl=64, **extra)
+        if case.get("reuse"):
+            wrapped_sibling = decorator(sibling_func(case))
+        wrapped = decorator(func)
+        if case.get("reuse"):
+            wrapped._sibling = wrapped_sibling
+        return wrapped, seen.get("key")
+    wrapped = fabric(ttl=64, **extra, **kw)(func)
+    return wrapped, get_cache_key_template(func, key=kw.get("key"), prefix=kw.get("prefix", ""))
+
+
+def sibling_func(case):
+    """another function with the same signature (name `sib`); its results are marked `SIB:`"""
+    import functools
+
+    names = case["names"]
+    inner = build_func(dict(case, names={"module": names["module"], "name": "sib", "qualname": names["qualname"].replace(names["name"], "sib")}))
+
+    @functools.wraps(inner)
+    async def sib(*a, **k):
+        return "SIB:" + await inner(*a, **k)
+
+    return sib
+
+
+FLIGHT_TURNS = 60
+
+
+class FlightStuck(RuntimeError):
+    """a bounded wait of the flight stage ran out (reported as a harness error, never a hang)"""
+
+
+async def run_flight(case) -> list[dict]:
+    """pairs of overlapping calls through the decorator: the first call is parked inside the function body (it awaits
+    an Event there), the second one is started and given time to go as far as it can, then the body is released.
+    Pairs: the first forms of every two groups (different bound arguments) and two forms of one group (same bound
+    arguments).  Reported per pair: both results, how many times the body ran, whether the second call reached the body
+    while the first one was parked.  Every wait is a bounded number of loop turns."""
+    import asyncio
+
+    from cashews import Cache
+
+    groups = case["groups"]
+    pairs = [((i, 0), (j, 0)) for i in range(len(groups)) for j in range(i + 1, len(groups))][:4]
+    pairs += [((i, 0), (i, 1)) for i in range(len(groups)) if len(groups[i]["calls"]) > 1][:2]
+    func = build_func(case)
+    out = []
+    for a, b in pairs:
+        cache = Cache()
+        cache.setup("mem://?check_interval=0&size=100000")
+        await cache.init()
+        try:
+            wrapped, _ = decorate(cache, case, func, case["flight"])
+        except Exception:  # noqa: BLE001 - the decorator refused the template
+            await cache.close()
+            return out
+        release = asyncio.Event()
+        parked = []
+
+        async def hook():
+            parked.append(1)
+            await release.wait()
+
+        func._hook[:] = [hook]
+        ran0 = len(func._calls)
+        tasks = []
+        try:
+            ca, cb = groups[a[0]]["calls"][a[1]], groups[b[0]]["calls"][b[1]]
+            args, kwargs = call_values(case, ca)
+            ta = asyncio.ensure_future(wrapped(*args, **kwargs))
+            tasks.append(ta)
+            for _ in range(FLIGHT_TURNS):
+                if parked or ta.done():
+                    break
+                await asyncio.sleep(0)
+            if not parked:
+                if not ta.done():
+                    raise FlightStuck(f"flight: the first call neither reached the function body nor finished in {FLIGHT_TURNS} turns")
+                ta.exception()
+                continue        # unbindable call: nothing overlaps
+            args, kwargs = call_values(case, cb)
+            tb = asyncio.ensure_future(wrapped(*args, **kwargs))
+            tasks.append(tb)
+            for _ in range(FLIGHT_TURNS):
+                if len(parked) > 1 or tb.done():
+                    break
+                await asyncio.sleep(0)
+            overlapped = len(parked) > 1
+            release.set()
+            for _ in range(FLIGHT_TURNS * 4):
+                if ta.done() and tb.done():
+                    break
+                await asyncio.sleep(0)
+            if not (ta.done() and tb.done()):
+                raise FlightStuck(f"flight: the calls did not finish within {FLIGHT_TURNS * 4} turns after the body was released")
+            res = []
+            for t in (ta, tb):
+                res.append("E:" + type(t.exception()).__name__ if t.exception() else "R:" + str(t.result()))
+            out.append({"a": list(a), "b": list(b), "ra": res[0], "rb": res[1], "ran": len(func._calls) - ran0,
+                        "second_reached_body_while_first_parked": overlapped})
+        finally:
+            del func._hook[:]
+            release.set()
+            for t in tasks:
+                if not t.done():
+                    t.cancel()
+            await cache.close()
     return out
 
 
@@ -652,27 +877,22 @@ async def run_decorated(case) -> dict:
 
     backend.get, backend.set = get, set
     func = build_func(case)
-    t = case["tmpl"]
-    kw = {}
-    if "items" in t:
-        kw["key"] = template_string(t["items"])
-    if case.get("prefix"):
-        kw["prefix"] = case["prefix"]
     out = {"calls": []}
     try:
-        wrapped = cache(ttl=64, **kw)(func)
+        wrapped, out["tmpl"] = decorate(cache, case, func)
     except Exception as exc:  # noqa: BLE001
         out["decor_error"] = type(exc).__name__
         await cache.close()
         return out
-    from cashews.key import get_cache_key_template
-
-    out["tmpl"] = get_cache_key_template(func, key=kw.get("key"), prefix=kw.get("prefix", ""))
     with _Ctx(case.get("ctx")):
         for g in case["groups"]:
             for c in g["calls"]:
-                args = tuple(dec(x) for x in c["args"])
-                kwargs = {n: dec(v) for n, v in c["kwargs"]}
+                args, kwargs = call_values(case, c)
+                if getattr(wrapped, "_sibling", None) is not None:
+                    try:
+                        await wrapped._sibling(*args, **kwargs)
+                    except Exception:  # noqa: BLE001 - an unbindable call
+                        pass
                 del rec[:]
                 ran0 = len(func._calls)
                 try:
@@ -694,8 +914,7 @@ def expected_result(case, call) -> str | None:
     """what the undecorated function returns for this call (None when the call is unbindable)"""
     func = build_func(case)
     psig = inspect.signature(func)
-    args = tuple(dec(x) for x in call["args"])
-    kwargs = {n: dec(v) for n, v in call["kwargs"]}
+    args, kwargs = call_values(case, call)
     try:
         ba = psig.bind(*args, **kwargs)
     except TypeError:
